@@ -32,6 +32,7 @@ CANARIES = {
     "trace-cap Merkle check": "RecVerifier_canary_stark_tracecap",
     "quotient-oracle Merkle check": "RecVerifier_canary_stark_oracle1",
     "last bit of the grinding range check (one leading zero too few enforced)": "RecVerifier_canary_stark_pow1",
+    "length check of the assignment routine (surplus elements silently dropped)": "RecVerifier_canary_stark_assign",
 }
 MUTANTS = {
     "step_active reads the degree bits from index 0": "RecVerifier_canary_step_index_zero",
@@ -75,8 +76,11 @@ def scenarios(tier, rnd, varcfgs, classes):
         rows.append({"id": "f4", "mode": "fixed", "d": 2, "cfg": dict(rate=1, cap=2, a=2, f=0, nc=1, q=3, pow=1), "maxdb": 6, "dbs": [6], "per_class": 3})
         for r in rows:
             r["per_class"] += 1
+    # shape classes (one list with a surplus / missing element) go to the fixed-degree circuits: in the variable-degree
+    # mode a shorter list is a legitimate shape of another trace length
+    noshape = {k: [c for c in v if not c.startswith("shape:")] for k, v in classes.items()}
     for r in rows:
-        r["classes"] = classes
+        r["classes"] = classes if r["mode"] == "fixed" else noshape
         r["sample"] = 2
         r["selftest"] = r["id"] == "v0"
     return rows
@@ -145,6 +149,25 @@ def judge(byid, res, cats, varcat, report, selftest=False):
         st["lengths"].setdefault("%s:%s" % (x["id"], x["db"]), 0)
         payload = {"scenario": {k: v for k, v in s.items() if k != "classes"}, "class": x["class"], "db": x["db"], "shape": sh,
                    "expected": {"spec": exp, "rule": "circuit acceptance = verify_stark_proof"}, "observed": x}
+        if x["class"].startswith("shape:"):
+            lst, direction = x["class"][6:].rsplit(":", 1)
+            accepted = bool(x["assignable"] and x["circuit"])
+            sc_ = st.setdefault("shape", {}).setdefault(lst, {"surplus": 0, "short": 0, "native_shape_reject_surplus": 0})
+            sc_[direction] += 1
+            cl = st["classes"].setdefault(x["class"], {"n": 0, "native_reject": 0})
+            cl["n"] += 1
+            cl["native_reject"] += 0 if x["native"] else 1
+            if direction == "surplus" and not x["native"] and c06.kind_of_detail(x["native_detail"]).startswith("other:"):
+                sc_["native_shape_reject_surplus"] += 1
+            if accepted != x["native"]:
+                report("violation", "C11/shape/%s/%s" % (lst, direction),
+                       "verify_stark_proof %s the proof (%s) but the circuit %s the assignment derived from it (%s)" % (
+                           "accepts" if x["native"] else "rejects", x["native_detail"][:80], "accepts" if accepted else "rejects", x["stage"]), payload)
+            else:
+                st["agree_accept" if x["native"] else "agree_reject"] += 1
+                st["lengths"]["%s:%s" % (x["id"], x["db"])] += 1
+                st["distinct"].add((x["id"], x["db"], x["class"], json.dumps(x["desc"], sort_keys=True)))
+            continue
         if not x["assignable"]:
             st["unassignable"] += 1
             continue
@@ -253,7 +276,19 @@ def run(chk, tier):
     chk.extra["lengths_agreeing_cases"] = st["lengths"]
     chk.extra["unsupported_lengths"] = st["unsupported_lengths"]
     chk.extra["circuits"] = [x["shape"] for x in res if "shape" in x]
-    need = set(cats[2]) - {"none", "pow_exact"}
+    need = {c for c in set(cats[2]) - {"none", "pow_exact"} if not c.startswith("shape:")}
+    shp = st.get("shape", {})
+    chk.extra["shape_classes"] = shp
+    fixed_layers = {min(len(x["shape"]["circuit_layers"]), 3) for x in res if "shape" in x and x["shape"]["mode"] == "fixed"}
+    lists = {c[6:].rsplit(":", 1)[0] for nl in fixed_layers for c in cats[nl] if c.startswith("shape:")}
+    empty_short = {x["class"][6:].rsplit(":", 1)[0] for x in res if x.get("empty") and x.get("class", "").startswith("shape:") and x["class"].endswith(":short")}
+    tried_surplus = {x["class"][6:].rsplit(":", 1)[0] for x in res if not x.get("empty") and x.get("class", "").startswith("shape:") and x["class"].endswith(":surplus")}
+    noshape = sorted(l for l in lists & tried_surplus if shp.get(l, {}).get("native_shape_reject_surplus", 0) == 0
+                     or (shp[l]["short"] == 0 and l not in empty_short))
+    if len(tried_surplus) < 12:
+        raise ToolError("vacuity: only %d list classes were resized" % len(tried_surplus))
+    if noshape:
+        raise ToolError("vacuity: shape classes without a natively shape-rejected surplus case (or without a short case): %s" % noshape)
     missing = sorted(c for c in need if st["classes"].get(c, {}).get("native_reject", 0) == 0)
     if missing:
         raise ToolError("vacuity: classes never exercised with a natively rejected proof: %s" % missing)
